@@ -170,6 +170,43 @@ func (e *Exec) markHavoc(st *State, prefixes ...string) {
 	for _, p := range prefixes {
 		st.havocPref = append(st.havocPref, havocMark{p, e.ctx.n})
 	}
+	e.ctx.genAlloc[e.ctx.n] = st.alloc
+}
+
+func isRefLeaf(l Leaf) bool {
+	if l.Sort != SInt {
+		return false
+	}
+	if strings.HasSuffix(l.Path, "#arr") {
+		return true
+	}
+	if strings.HasSuffix(l.Path, "#off") || strings.HasSuffix(l.Path, "#len") || strings.HasSuffix(l.Path, "#cap") {
+		return false
+	}
+	return isRefType(l.T)
+}
+
+// closedness: every reference stored in heap symbol t (declared for heap location name) is
+// allocated (below alloc). This is the global invariant of the memory model that makes a freshly
+// allocated reference distinct from everything reachable before.
+func (c *Ctx) closed(name string, t Term, alloc Term) {
+	if !c.refLeaf[name] {
+		return
+	}
+	var ax string
+	srt := string(t.Sort)
+	switch {
+	case srt == "Int":
+		ax = fmt.Sprintf("(assert (and (<= 0 %s) (< %s %s)))", t.S, t.S, alloc.S)
+	case srt == "(Array Int Int)":
+		ax = fmt.Sprintf("(assert (forall ((p!c Int)) (! (and (<= 0 (select %s p!c)) (< (select %s p!c) %s)) :pattern ((select %s p!c)))))", t.S, t.S, alloc.S, t.S)
+	case strings.HasPrefix(srt, "(Array Int (Array ") && strings.HasSuffix(srt, " Int))"):
+		ks := idxSort(elemSort(t.Sort))
+		ax = fmt.Sprintf("(assert (forall ((p!c Int) (k!c %s)) (! (and (<= 0 (select (select %s p!c) k!c)) (< (select (select %s p!c) k!c) %s)) :pattern ((select (select %s p!c) k!c)))))", ks, t.S, t.S, alloc.S, t.S)
+	default:
+		return
+	}
+	c.symAxiom[t.S] = ax
 }
 
 type joinFact struct {
@@ -260,10 +297,13 @@ type Ctx struct {
 	heapSort map[string]Sort   // heap symbol -> sort
 	axioms   []string          // (assert ...) lines that are part of the prelude for this ctx
 	ufs      map[string]string // uninterpreted function name -> signature
+	refLeaf  map[string]bool   // heap symbol name (class#leaf) -> leaf holds references
+	symAxiom map[string]string // declared heap symbol -> closedness assertion (every stored reference is allocated)
+	genAlloc map[int]Term      // havoc generation -> allocation counter after it
 }
 
 func newCtx() *Ctx {
-	return &Ctx{declared: map[string]bool{}, heapSort: map[string]Sort{}, ufs: map[string]string{}}
+	return &Ctx{declared: map[string]bool{}, heapSort: map[string]Sort{}, ufs: map[string]string{}, refLeaf: map[string]bool{}, symAxiom: map[string]string{}, genAlloc: map[int]Term{}}
 }
 
 func (c *Ctx) fresh(prefix string, s Sort) Term {
@@ -338,6 +378,9 @@ func (e *Exec) heapGet(st *State, name string, s Sort) Term {
 			t := e.ctx.constSym(fmt.Sprintf("%s@h%d", name, st.havocPref[i].gen), s)
 			e.ctx.heapSort[name] = s
 			st.heap[name] = t
+			if al, ok := e.ctx.genAlloc[st.havocPref[i].gen]; ok {
+				e.ctx.closed(name, t, al)
+			}
 			return t
 		}
 	}
@@ -346,6 +389,7 @@ func (e *Exec) heapGet(st *State, name string, s Sort) Term {
 		t = e.ctx.constSym(name+"@0", s)
 		st.heap0[name] = t
 		e.ctx.heapSort[name] = s
+		e.ctx.closed(name, t, Term{sym("alloc@0"), SInt})
 	}
 	st.heap[name] = t
 	return t
@@ -391,12 +435,15 @@ func (e *Exec) load(st *State, a *Addr) SV {
 	for i, l := range leaves {
 		switch a.Kind {
 		case AObj:
+			e.ctx.refLeaf[heapSym("H", a.Class, a.Path+l.Path)] = isRefLeaf(l)
 			arr := e.heapGet(st, heapSym("H", a.Class, a.Path+l.Path), ArrSort(SInt, l.Sort))
 			out.L[i] = Select(arr, a.Ref)
 		case AElem:
+			e.ctx.refLeaf[heapSym("A", a.Class, a.Path+l.Path)] = isRefLeaf(l)
 			arr := e.heapGet(st, heapSym("A", a.Class, a.Path+l.Path), ArrSort(SInt, ArrSort(SInt, l.Sort)))
 			out.L[i] = Select(Select(arr, a.Ref), a.Idx)
 		case AGlobal:
+			e.ctx.refLeaf[heapSym("G", a.Class, a.Path+l.Path)] = isRefLeaf(l)
 			out.L[i] = e.heapGet(st, heapSym("G", a.Class, a.Path+l.Path), l.Sort)
 		}
 	}
@@ -422,10 +469,12 @@ func (e *Exec) store(st *State, a *Addr, v SV) {
 		switch a.Kind {
 		case AObj:
 			name := heapSym("H", a.Class, a.Path+l.Path)
+			e.ctx.refLeaf[name] = isRefLeaf(l)
 			arr := e.heapGet(st, name, ArrSort(SInt, l.Sort))
 			e.heapSet(st, name, Store(arr, a.Ref, v.L[i]))
 		case AElem:
 			name := heapSym("A", a.Class, a.Path+l.Path)
+			e.ctx.refLeaf[name] = isRefLeaf(l)
 			arr := e.heapGet(st, name, ArrSort(SInt, ArrSort(SInt, l.Sort)))
 			e.heapSet(st, name, Store(arr, a.Ref, Store(Select(arr, a.Ref), a.Idx, v.L[i])))
 		case AGlobal:
